@@ -304,7 +304,11 @@ DOCTYPES = [['html', '-//W3C//DTD HTML 4.01//EN', 'http://www.w3.org/TR/html4/st
             ['html', None, None],
             ['html', '-//W3C//DTD XHTML 1.0 Strict//EN', 'http://www.w3.org/TR/xhtml1/DTD/xhtml1-strict.dtd'],
             ['html', None, 'about:legacy-compat'],
-            ['svg', '-//W3C//DTD SVG 1.1//EN', None]]
+            ['svg', '-//W3C//DTD SVG 1.1//EN', None],
+            # a system identifier holding a double quote is delimited by single quotes (each serializer has its own copy
+            # of that branch)
+            ['html', None, 'a"b.dtd'],
+            ['html', '-//W3C//DTD XHTML 1.0 Strict//EN', 'q"uote.dtd']]
 
 
 def rand_doctype(rng):
